@@ -201,15 +201,15 @@ PROPS["C11"] = {
     "title": "WARP envelopes cross the socket unchanged and reach only their addressee",
     "level": "exploration",
     "design_ref": "DESIGN.md §3 C11",
-    "technique": "runtime monitoring: exhaustive pool + random round trips through the real envelope encoder/peeler; two real RemoteTasks over an in-memory web socket with uniquely tagged traffic; virtual-time deadlock detection; poll-level MultiReader driver with counting wakers; Miri + TSan on the multiplexer",
-    "text": "Real ReconEncoder output for every envelope kind x adversarial node/lane/body strings (1.1 M pool + 300k/10M random) is read back unchanged by the real header peeler. Real RemoteTasks over an in-memory web socket, with 1-6 agents and 1-6 downlinks plus commanders attaching, writing uniquely tagged envelopes and detaching under back-pressure, must deliver every envelope only to its addressee, unchanged, in per-source order, with loss only after a detach; 19 kinds of invalid frames must reach nobody and must not stop the task. MultiReader loses, duplicates and reorders nothing and starves no stream across the 64-stream bucket boundary (poll level and foreign-thread wake-ups).",
+    "technique": "runtime monitoring: exhaustive pool + random round trips through the real envelope encoder/peeler; two real RemoteTasks over an in-memory web socket with uniquely tagged traffic; virtual-time deadlock detection; poll-level MultiReader driver with counting wakers; Miri + TSan on the multiplexer; fault injection on the transport (write failure, write stall, EOF, peer Close) and on attached byte channels (corrupt and truncated frames)",
+    "text": "Real ReconEncoder output for every envelope kind x adversarial node/lane/body strings (1.1 M pool + 300k/10M random) is read back unchanged by the real header peeler. Real RemoteTasks over an in-memory web socket, with 1-6 agents and 1-6 downlinks plus commanders attaching, writing uniquely tagged envelopes and detaching under back-pressure, must deliver every envelope only to its addressee, unchanged, in per-source order, with loss only after a detach; 19 kinds of invalid frames must reach nobody and must not stop the task. MultiReader loses, duplicates and reorders nothing and starves no stream across the 64-stream bucket boundary (poll level and foreign-thread wake-ups). Part socket-edge (8 000 / 200 000 cases) runs one RemoteTask against the raw web-socket peer over a transport that can fail writes or stop accepting bytes, on the paths where an envelope has no addressee or the connection goes away under live traffic: response envelopes for (node, lane) pairs nobody subscribed to; request envelopes on a task built without a resolver (each answered by exactly one @unlinked @nodeNotFound naming node and lane, commands by nothing); refusals through NodeConnectionRequest::fail (NoSuchAgent, PlaneStopping); attachments abandoned before confirmation; an agent or downlink channel that writes a complete frame the raw decoders reject, or dies inside a frame, while the other channels are busy. In all of these nothing may reach anyone but the addressee, all other traffic is still delivered unchanged and in order, and the task keeps running. After a peer Close frame mid-conversation everything the peer wrote before it is still delivered to attached endpoints; after a transport EOF or failing writes nothing is mis-delivered, altered or duplicated and no message stays out when a later one of the same source arrived; in all three cases the task ends (virtual time) with every attached channel closed and no source blocked; a task stopped on a transport that accepts no bytes ends within its close time-out + 1 s.",
     "note": "Trusted base: tokio duplex and paused clock, ratchet framing, byte_channel (C12), the raw message codecs (C10). Bodies are opaque text. select! fairness is sampled.",
     "runs": [{"engine": "remote"}],
     "sanitizers": [
         {"kind": "tsan", "engine": "remote", "args": ["--scale", "0.05", "--only", "multi-reader"], "quick": True, "timeout_s": 1800},
         {"kind": "miri", "tier": "quick", "engine": "remote", "args": ["--scale", "0.002", "--threads", "1", "--watchdog", "3000", "--only", "multi-reader"], "timeout_s": 3600},
     ],
-    "assumptions": ["names and bodies are valid UTF-8", "harness readers always read (stalls <= 20 ms virtual)", "socket buffers 64 B - 64 kB, registration buffers 1-8"],
+    "assumptions": ["what becomes of a corrupt channel frame and of frames after a Close is observed, not judged; a task blocked in a socket write when stopped is not judged", "names and bodies are valid UTF-8", "harness readers always read (stalls <= 20 ms virtual)", "socket buffers 64 B - 64 kB, registration buffers 1-8"],
 }
 
 PROPS["C10"] = {
